@@ -7,9 +7,9 @@ Pure functions (tied to the code through AES-GCM tags verified by the harness):
   maad <loc:hex> <size> <e> <o> <v> <nonce:hex> <c> <av> <tags> <g> <m>   -> <hex>   metadata_auth_aad
        optional strings: `-` = None, `=<hex>` = Some; optional numbers: `-` or decimal;
        tags: `-` or comma separated hex
-  verify <strict> <an> <at> <av|-> <g> <tagok> <payload> <head|list>
+  verify <strict> <an> <at> <av|-> <g> <tagok> <payload> <head|list|copy>
                                                    -> ok:auth | ok:legacy | err:<class>   verify_metadata, then
-       head (payload object must exist) or a listing entry (metadata only)
+       head (payload object must exist), a listing entry (metadata only), or copy_opts from that key
   plan <size> <c> <range> <head>                   -> ok rStart rEnd <rr> startIdx startOffset len | err:range
        range: `-` | b:<s>:<e> | o:<n> | s:<n>;  rr: `-` | <s>:<e>
   stream …                                         create_decryption_stream over a symbolic
@@ -177,6 +177,11 @@ def step (_ : Unit) (line : String) : Unit × String :=
       | .error e => ((), errName e)
       | .ok a =>
         let tag := match a with | .authenticated => "ok:auth" | .legacy => "ok:legacy"
+        if entry = "copy" then
+          match copyObject A (strict = "1") B [] [121] toyFresh with
+          | .ok _ => ((), tag)
+          | .error e => ((), errName e)
+        else
         match (if entry = "list" then listEntry A (strict = "1") B [] else headObject A (strict = "1") B []) with
         | .ok _ => ((), tag)
         | .error e => ((), errName e)
